@@ -499,8 +499,8 @@ def cases(tier, seed):
   out.append(case('lfda_translation_00011', lfda_translation_case((0, 0, 0, 1, 1), 1), FUNCS, 'labels [0,0,0,1,1], arbitrary points in R^1', tiers=T, cost=60, validate=4, max_paths=100000))
   for w in ('NCA', 'MLKR'):
     out.append(case('%s_translation_n3_d2_k1' % w.lower(), softmax_translation_case(w, 3, 2, 1), FUNCS,
-                    '3 arbitrary points in R^2, arbitrary translation, every L in R^{1x2}: value and gradient', cost=40, proof_timeout_ms=120000, validate=4))
-    out.append(case('%s_translation_n3_d2_k2' % w.lower(), softmax_translation_case(w, 3, 2, 2), FUNCS, 'every L in R^{2x2}', tiers=T, cost=100, proof_timeout_ms=120000, validate=4))
+                    '3 arbitrary points in R^2, arbitrary translation, every L in R^{1x2}: value and gradient', cost=40, proof_timeout_ms=120000, validate=4, scale=0.5))
+    out.append(case('%s_translation_n3_d2_k2' % w.lower(), softmax_translation_case(w, 3, 2, 2), FUNCS, 'every L in R^{2x2}', tiers=T, cost=100, proof_timeout_ms=120000, validate=4, scale=0.5))
   out.append(case('lmnn_translation', lmnn_translation_case(), FUNCS, 'fixed 4-point data set translated by an arbitrary vector, every L in R^{1x2}', cost=30, validate=4, max_paths=100000))
   out.append(case('itml_explicit_bounds', itml_case(False), FUNCS, '1 positive + 1 negative arbitrary pair in R^2, explicit bounds, one whole sweep; translation and every non-empty subset of swapped pairs', tiers=T, cost=300, validate=4,
                   proof_timeout_ms=60000, hard_timeout_s=4000))
